@@ -679,6 +679,7 @@ func (c *Client) Do(ctx context.Context, q Query) (err error) {
 	var (
 		gotException atomic.Bool
 		receiveErr   atomic.Bool
+		sendErr      atomic.Bool
 		colInfo      chan proto.ColInfoInput
 	)
 	if q.Result == nil && len(q.Input) > 0 {
@@ -706,8 +707,14 @@ func (c *Client) Do(ctx context.Context, q Query) (err error) {
 			}
 		}
 	}
-	g.Go(func() error {
+	g.Go(func() (rerr error) {
 		// Sending data.
+		defer func() {
+			if rerr != nil && !errors.Is(rerr, context.Canceled) && !errors.Is(rerr, context.DeadlineExceeded) {
+				// Failed not because of cancellation, e.g. on write error.
+				sendErr.Store(true)
+			}
+		}()
 		if err := c.sendQuery(ctx, q); err != nil {
 			return errors.Wrap(err, "send query")
 		}
@@ -796,6 +803,12 @@ func (c *Client) Do(ctx context.Context, q Query) (err error) {
 		return nil
 	})
 	if err := g.Wait(); err != nil {
+		if sendErr.Load() && !c.IsClosed() {
+			// Connection is kept on server exception, but if sending has
+			// failed too (e.g. partial write), part of packet can be already
+			// written, so connection can't be reused.
+			_ = c.Close()
+		}
 		if !c.IsClosed() {
 			// Connection is kept (e.g. on server exception), so next request
 			// should not be prepended by data that was encoded for this
